@@ -296,6 +296,21 @@ def opSched (j : Json) : R Json := do
     ("max_inflight", Json.num maxInfl), ("max_active", Json.num maxAct), ("final", Json.bool (final s)),
     ("measure0", Json.num (measure (initial n m files)))]
 
+open Rate in
+/-- {"slow":[[startup,slowRate,passed,count]...], "charge":[[cap,n]...]} -/
+def opRate (j : Json) : R Json := do
+  let sl ← (← fArr j "slow").mapM fun e => do
+    let a ← (← e.getArr?).toList.mapM (·.getNat?)
+    match a with
+    | [st, sr, p, c] => pure (Json.bool (slow st sr p c))
+    | _ => throw "bad slow query"
+  let ch ← (← fArr j "charge").mapM fun e => do
+    let a ← (← e.getArr?).toList.mapM (·.getNat?)
+    match a with
+    | [cap, n] => pure (Json.arr ((charge cap n).map fun (x : Nat) => Json.num x).toArray)
+    | _ => throw "bad charge query"
+  return Json.mkObj [("slow", Json.arr sl.toArray), ("charge", Json.arr ch.toArray)]
+
 def dispatch (j : Json) : R Json := do
   let op ← fStr j "op"
   match op with
@@ -310,6 +325,7 @@ def dispatch (j : Json) : R Json := do
   | "clean" => opClean j
   | "lock" => opLock j
   | "sched" => opSched j
+  | "rate" => opRate j
   | "quote" => opQuote j
   | "validate" => opValidate j
   | "metadata_files" => opMetadataFiles j
